@@ -188,7 +188,7 @@ def sany(module):
     return ok, out
 
 
-def judge_traces(module, cfg, events, shard=None, procs=16, timeout=600, name=None):
+def judge_traces(module, cfg, events, shard=None, procs=16, timeout=600, name=None, boundary=None):
     """Code -> spec: have TLC judge recorded events.
 
     `events` is a list of JSON-able dicts. They are sharded over single-worker TLC
@@ -205,11 +205,21 @@ def judge_traces(module, cfg, events, shard=None, procs=16, timeout=600, name=No
         shard = min(2500, max(100, -(-len(events) // procs)))
     d = _scratch(name or module)
     shards = []
-    for k in range(0, len(events), shard):
-        path = os.path.join(d, "trace_%05d.json" % k)
+    if boundary is None:
+        starts = list(range(0, len(events), shard))
+    else:
+        # a stateful judge: a shard may only start at an event where the judged state starts afresh
+        starts, k = [0], 0
+        for i, e in enumerate(events):
+            if i - k >= shard and boundary(e):
+                starts.append(i)
+                k = i
+    for n, k in enumerate(starts):
+        end = starts[n + 1] if n + 1 < len(starts) else len(events)
+        path = os.path.join(d, "trace_%07d.json" % k)
         with open(path, "w") as f:
-            json.dump(events[k:k + shard], f, separators=(",", ":"))
-        shards.append((k, path, len(events[k:k + shard])))
+            json.dump(events[k:end], f, separators=(",", ":"))
+        shards.append((k, path, end - k))
 
     def one(s):
         k, path, n = s
